@@ -39,12 +39,12 @@ META = {
 
 
 def run(rep):
-    refine_cache(rep)
-    labels(rep)
-    search(rep)
-    canon_graph(rep)
-    siblings(rep)
-    counts(rep)
+    rep.run(refine_cache)
+    rep.run(labels)
+    rep.run(search)
+    rep.run(canon_graph)
+    rep.run(siblings)
+    rep.run(counts)
 
 
 def refine_cache(rep):
